@@ -1889,7 +1889,7 @@ fn bfs(part: &'static str, udir: &Path, b: &Bounds) -> Report {
 	rep
 }
 
-fn run_part(part: &'static str, tier: Tier) -> Report {
+pub fn run_part(part: &'static str, tier: Tier) -> Report {
 	uni::init_thread();
 	let sc = uni::Scratch::new(match part {
 		"pool-mc" => "c14",
